@@ -73,7 +73,8 @@ Theorem simple_nolen_wire status hs kind chunks hc :
   exists t1 tp head,
     start_response lower (new_task (r_version r) false) (PStr status) hs None = (t1, Ok tt)
     /\ build_response_header cap lower c r t1 = (tp, Ok head)
-    /\ wire (o_writes res) = head ++ body_enc tp chunks ++ (if t_chunked tp then chunk_terminator else [])
+    /\ wire (o_writes res) = head ++ body_enc tp chunks
+                             ++ (if t_chunked tp && negb (r_head r) then chunk_terminator else [])
     /\ o_close res = t_cof tp /\ o_next res = negb (t_cof tp) /\ o_escaped res = None.
 Proof.
   intros He Hfile Hlen Hcl. cbn zeta. unfold channel_service. rewrite He. cbn [connected].
